@@ -212,8 +212,8 @@ def partition_volume(volume: float, *, max_volume: Union[int, float]) -> List[fl
         return []
     if volume < max_volume:
         return [volume]
-    # (the small tolerance keeps float round-off at exact multiples, e.g. 9.4 / 1.88, from adding an empty step)
-    isteps = math.ceil(volume / max_volume - 1e-9)
+    # (the small relative tolerance keeps float round-off at exact multiples, e.g. 9.4 / 1.88, from adding an empty step)
+    isteps = math.ceil(volume / max_volume * (1 - 1e-12))
     # balanced integer-valued steps, but never above a (possibly non-integer) max_volume
     step_volume = min(math.ceil(volume / isteps), max_volume)
     volumes: List[float] = [step_volume] * (isteps - 1)
